@@ -193,6 +193,11 @@ func checkModelEquality(prop string, p *PipePlan, obs *PipeObs, out *RunOut, pro
 				Msg: fmt.Sprintf("delivery %d (%s seq %d, %d records expected) produced no published message; log tail: %s", d.ID, d.Proto, seqOfDelivery(d), expRecords(d), tail(obs.Log, 300))})
 			continue
 		}
+		if d.wantPub == 0 && len(pubs) > 0 && d.class == "bad-header" {
+			out.Violations = append(out.Violations, Violation{Prop: prop, Class: "unexpected-message", Key: d.Proto + " " + d.class,
+				Msg: fmt.Sprintf("delivery %d (%s, %s) must yield nothing, but a message was published: %s", d.ID, d.Proto, d.class, tail(string(obs.Published[pubs[0]].Payload), 300))})
+			continue
+		}
 		for _, pi := range pubs {
 			pub := &obs.Published[pi]
 			var diffs []string
